@@ -596,14 +596,16 @@ theorem same_service_negative_not_foreign (r : Req) (s nrc : UInt8) (rest : Byte
 open Gallia.Client Gallia.ClientIO in
 /-- **worker_only_via_lock**: in a system made of gallia's callers, the tester-present worker `w` (interval `iv`) does in
     every pass of its loop exactly: the interval sleep outside the client, then one `request()` with `max_retry = 0` -
-    acquire, one transmission at most, no backoff sleep, release; whenever its next await point touches the transport
+    acquire, one transmission at most, no backoff sleep, no reconnect (a lost connection ends the ping with
+    MissingResponse, which the loop logs and survives), release; whenever its next await point touches the transport
     it holds the client, and every transport operation of `w` in the event trace happens while `w` is the holder -/
 theorem worker_only_via_lock (P : Progs) (hreal : ∀ t, RealProg (P t)) (born : Tid → Bool) (cs : List Choice) (s : MSys)
     (h : mrun P (MSys.init P born) cs = some s) (w : Tid) (iv : Nat) (c : CfgX) (ios : Nat → Script)
     (hw : P w = Prog.worker iv c ios) :
     (∀ n, ((P w).round n).acts =
       .io (.sl iv) :: .acquire :: ((runX (workerCfg c) (ios n)).trace.map Act.io ++ [.release])) ∧
-    (∀ n, (runX (workerCfg c) (ios n)).writes ≤ 1 ∧ (runX (workerCfg c) (ios n)).sleeps = []) ∧
+    (∀ n, (runX (workerCfg c) (ios n)).writes ≤ 1 ∧ (runX (workerCfg c) (ios n)).sleeps = [] ∧
+      (runX (workerCfg c) (ios n)).reconnects = 0) ∧
     (∀ a rest, ((s.tasks w).phase = .idle ∨ (s.tasks w).phase = .holding) → (s.tasks w).todo = a :: rest →
       a.isWire = true → s.lock.holder = some w) ∧
     (∀ pre post k, s.events = pre ++ Event.op w k :: post → ∃ s1, accept Sys.init pre = some s1 ∧ s1.holder = some w) := by
@@ -616,7 +618,7 @@ theorem worker_only_via_lock (P : Progs) (hreal : ∀ t, RealProg (P t)) (born :
   · intro n
     have hb := (attemptsX_bounds (workerCfg c) (ios n) 0 0 0 (.missing false)).writes
     have hs := attemptsX_sleeps (workerCfg c) (ios n) 0 0 0 (.missing false)
-    constructor
+    refine ⟨?_, ?_, runX_no_rc (workerCfg c) (ios n) rfl⟩
     · simpa [runX, ResX.writes, workerCfg] using hb
     · have : ((List.range' 0 ((workerCfg c).maxRetry - 0)).map (waitX (workerCfg c))) = [] := by simp [workerCfg]
       rw [this] at hs
